@@ -233,14 +233,28 @@ fn build(items: &[Vec<i64>]) -> (Vec<ds::Horizontal>, CaseFont) {
                         shrink: sc(it[4]),
                         shrink_order: order_of(it[5]),
                     },
-                    kind: if idx % 4 == 3 { ds::GlueKind::Math } else { ds::GlueKind::Normal },
+                    // pack ignores the kind of a glue node (leaders are a TODO there): every kind
+                    kind: match (idx as i64 + it[1]).rem_euclid(6) {
+                        0 => ds::GlueKind::Normal,
+                        1 => ds::GlueKind::ConditionalMath,
+                        2 => ds::GlueKind::Math,
+                        3 => ds::GlueKind::AlignedLeader,
+                        4 => ds::GlueKind::CenteredLeader,
+                        _ => ds::GlueKind::ExpandedLeader,
+                    },
                 }
                 .into(),
             ),
             6 => l.push(
                 ds::Kern {
                     width: sc(it[1]),
-                    kind: if idx % 2 == 0 { ds::KernKind::Normal } else { ds::KernKind::Explicit },
+                    // every kind of kern adds its width
+                    kind: match (idx as i64 + it[1]).rem_euclid(4) {
+                        0 => ds::KernKind::Normal,
+                        1 => ds::KernKind::Explicit,
+                        2 => ds::KernKind::Accent,
+                        _ => ds::KernKind::Math,
+                    },
                 }
                 .into(),
             ),
@@ -486,8 +500,24 @@ const WORDS: &[&str] = &[
     "affine", "Wow", "To", "y,", "end.", "I", "shuffle", "12", "(a)",
 ];
 
+/// The harness's own reading of the TFM files (per (font, char), straight from `tfm::File`),
+/// independent of `boxworks_text::TfmFontRepo`, which is what the real `pack` is given.
+struct TfmDirect(Vec<tfm::File>);
+impl FontRepo for TfmDirect {
+    fn width(&self, c: char, font: u32) -> Option<Scaled> {
+        self.0[font as usize].width_utf8(c)
+    }
+    fn height(&self, c: char, font: u32) -> Option<Scaled> {
+        self.0[font as usize].height_utf8(c)
+    }
+    fn depth(&self, c: char, font: u32) -> Option<Scaled> {
+        self.0[font as usize].depth_utf8(c)
+    }
+}
+
 struct C15 {
     tfm: Option<(boxworks_text::TextPreprocessorImpl, boxworks_text::TfmFontRepo)>,
+    direct: Option<TfmDirect>,
     repo: String,
 }
 
@@ -496,13 +526,16 @@ impl C15 {
         if self.tfm.is_none() {
             let mut tp = boxworks_text::TextPreprocessorImpl::new(boxworks_text::Params::plain_tex_defaults());
             let mut fr = boxworks_text::TfmFontRepo::default();
+            let mut direct = vec![];
             for (id, name) in ["cmr10", "cmss8"].iter().enumerate() {
                 let bytes = std::fs::read(format!("{repo}/crates/tfm/corpus/computer-modern/{name}.tfm")).expect("tfm file");
                 let mut f = tfm::File::deserialize(&bytes).0.expect("tfm parses");
                 let prog = tfm::ligkern::CompiledProgram::compile_from_tfm_file(&mut f).0;
                 tp.register_font(id as u32, &f, prog);
                 fr.register_font(id as u32, f);
+                direct.push(tfm::File::deserialize(&bytes).0.expect("tfm parses"));
             }
+            self.direct = Some(TfmDirect(direct));
             tp.activate_font(0);
             self.tfm = Some((tp, fr));
         }
@@ -992,7 +1025,8 @@ impl Property for C15 {
                         }
                     }
                 }
-                let items = encode_real_list(&*fr, &list).expect("text lists contain chars, ligatures, kerns, glue");
+                let items = encode_real_list(self.direct.as_ref().unwrap(), &list)
+                    .expect("text lists contain chars, ligatures, kerns, glue");
                 let fr: &boxworks_text::TfmFontRepo = &self.tfm.as_ref().unwrap().1;
                 let real = run_real(fr, list, 0, w);
                 out.tag("stream=tx");
@@ -1073,5 +1107,5 @@ impl Property for C15 {
 
 fn main() {
     let repo = parse_args().repo;
-    run(C15 { tfm: None, repo });
+    run(C15 { tfm: None, direct: None, repo });
 }
